@@ -440,7 +440,7 @@ func (in *Interp) intrinsic(fn *ssa.Function, args []Value, site *ssa.Call) (Val
 		return nil, true
 	case "time.Now":
 		in.stub("time.Now (symbolic non-decreasing instant)")
-		return in.symbolicNow(fn), true
+		return in.symbolicNowT(fn.Signature.Results().At(0).Type()), true
 	// ----- pion/srtp: cipher and HMAC are not modelled; only the LENGTH logic is
 	// (auth tag 10 bytes for AES128_CM_HMAC_SHA1_80, SRTCP index 4 bytes, MKI as
 	// configured); the produced bytes are unconstrained.
@@ -556,32 +556,56 @@ func (in *Interp) intrinsic(fn *ssa.Function, args []Value, site *ssa.Call) (Val
 		res.F[1] = sec
 		return res, true
 	case "(time.Time).Sub":
-		// contract-level model for wall-clock instants (no monotonic reading):
-		// (sec1-sec2)*1e9 + (nsec1-nsec2), valid while the difference fits
-		// (|sec1-sec2| < 2^33, i.e. 272 years) — stated as an assumption.
-		t, u := args[0].(*StructV), args[1].(*StructV)
-		tw, uw := t.F[0].(*Term), u.F[0].(*Term)
-		te, ue := t.F[1].(*Term), u.F[1].(*Term)
-		if tw.IsConst() && uw.IsConst() && te.IsConst() && ue.IsConst() {
+		return in.timeSub(args[0].(*StructV), args[1].(*StructV))
+	case "time.Since":
+		// time.Now().Sub(t) on the symbolic clock
+		in.stub("time.Since = time.Now().Sub(t) on the symbolic clock")
+		now := in.symbolicNowT(fn.Signature.Params().At(0).Type())
+		r, ok := in.timeSub(now, args[0].(*StructV))
+		if !ok {
+			in.unsupported("time.Since on a concrete instant")
+		}
+		return r, true
+	case "github.com/bluenviron/gortsplib/v5/pkg/ntp.Encode":
+		if _, ok := in.eng.cfg.Params["NTPSTUB"]; !ok {
 			return nil, false
 		}
-		top := ts.Const(64, 1<<63)
-		in.must(ts.Eq(ts.BvAnd(tw, top), ts.Const(64, 0)), "time model: instant with monotonic reading (unsupported)")
-		in.must(ts.Eq(ts.BvAnd(uw, top), ts.Const(64, 0)), "time model: instant with monotonic reading (unsupported)")
-		in.stub("time.Time.Sub on symbolic wall-clock instants: (sec1-sec2)*1e9+(nsec1-nsec2), |sec1-sec2| < 2^33 assumed")
-		ds := ts.Sub(te, ue)
-		lim := ts.Const(64, 1<<33)
-		in.assume(ts.And(ts.Slt(ds, lim), ts.Slt(ts.BvNeg(lim), ds)), "time.Sub range")
-		nmask := ts.Const(64, (1<<30)-1)
-		tn, un := ts.BvAnd(tw, nmask), ts.BvAnd(uw, nmask)
-		if _, hi := in.ival(tw); hi <= nmask.Val {
-			tn = tw
+		// harness option NTPSTUB: the NTP fixed-point conversion is replaced by its
+		// contract (Decode(Encode(t)) == t; established separately by C15's
+		// ZzC15NTPRoundTrip to within 1 ns), so that no floating point is involved
+		in.stub("ntp.Encode/Decode replaced by the inverse-pair contract (NTPSTUB)")
+		v := in.freshVar("ntp", BV(64))
+		if in.ntpTab == nil {
+			in.ntpTab = map[int]*StructV{}
 		}
-		if _, hi := in.ival(uw); hi <= nmask.Val {
-			un = uw
+		in.ntpTab[v.id] = in.copyVal(args[0]).(*StructV)
+		if in.ntpVars == nil {
+			in.ntpVars = map[int]*Term{}
 		}
-		dn := ts.Sub(tn, un)
-		return ts.Add(ts.Mul(ds, ts.Const(64, 1000000000)), dn), true
+		in.ntpVars[v.id] = v
+		return v, true
+	case "github.com/bluenviron/gortsplib/v5/pkg/ntp.Decode":
+		if _, ok := in.eng.cfg.Params["NTPSTUB"]; !ok {
+			return nil, false
+		}
+		in.stub("ntp.Encode/Decode replaced by the inverse-pair contract (NTPSTUB)")
+		// an arbitrary instant r, tied to every Encode on this path: arg == Encode(t) => r == t
+		// (the value usually comes back re-assembled from marshalled bytes, so the link is
+		// stated in the logic rather than by term identity)
+		if t, ok := args[0].(*Term); ok {
+			if st, ok := in.ntpTab[t.id]; ok {
+				return in.copyVal(st), true
+			}
+		}
+		r := in.symbolicInstant(fn.Signature.Results().At(0).Type())
+		if t, ok := args[0].(*Term); ok {
+			for id, st := range in.ntpTab {
+				v := in.ntpVars[id]
+				same := ts.And(ts.Eq(r.F[0].(*Term), st.F[0].(*Term)), ts.Eq(r.F[1].(*Term), st.F[1].(*Term)))
+				in.assumeX(ts.Implies(ts.Eq(t, v), same), "ntp.Decode(ntp.Encode(t)) == t")
+			}
+		}
+		return r, true
 	case "os.Getenv":
 		return StrV{}, true
 	case "crypto/rand.Read":
@@ -890,9 +914,9 @@ func (in *Interp) sprintf(full string, args []Value) (Value, bool) {
 
 // time.Now: returns a time.Time struct with symbolic wall/ext consistent with
 // "wall clock without monotonic reading": wall = nsec (30 bits), ext = seconds since year 1.
-func (in *Interp) symbolicNow(fn *ssa.Function) Value {
+func (in *Interp) symbolicNowT(timeT types.Type) *StructV {
 	ts := in.ts
-	res := in.zero(fn.Signature.Results().At(0).Type()).(*StructV)
+	res := in.zero(timeT).(*StructV)
 	if in.inInit > 0 {
 		return res
 	}
@@ -921,6 +945,66 @@ func (in *Interp) symbolicNow(fn *ssa.Function) Value {
 	in.nondets = append(in.nondets, nondetRec{Name: "time.Now.sec", Kind: "u64", Terms: []*Term{sec}})
 	in.nondets = append(in.nondets, nondetRec{Name: "time.Now.nsec", Kind: "u64", Terms: []*Term{nsec}})
 	return res
+}
+
+// an arbitrary wall-clock instant between 1970 and 2100 (not tied to the clock)
+func (in *Interp) symbolicInstant(timeT types.Type) *StructV {
+	ts := in.ts
+	res := in.zero(timeT).(*StructV)
+	in.nowSeq++
+	nsec := ts.Var(fmt.Sprintf("inst%d.nsec", in.nowSeq), BV(64))
+	sec := ts.Var(fmt.Sprintf("inst%d.sec", in.nowSeq), BV(64))
+	in.assume(ts.Ult(nsec, ts.Const(64, 1000000000)), "instant nsec range")
+	const unixToInternal = 62135596800
+	in.assume(ts.And(ts.Ule(ts.Const(64, unixToInternal), sec), ts.Ule(sec, ts.Const(64, unixToInternal+4102444800))), "instant sec range 1970..2100")
+	res.F[0] = nsec
+	res.F[1] = sec
+	return res
+}
+
+// contract-level model of time.Time.Sub for wall-clock instants (no monotonic
+// reading): (sec1-sec2)*1e9 + (nsec1-nsec2), valid while the difference fits
+// (|sec1-sec2| < 2^33, i.e. 272 years) — stated as an assumption.
+func (in *Interp) timeSub(t, u *StructV) (Value, bool) {
+	ts := in.ts
+	tw, uw := t.F[0].(*Term), u.F[0].(*Term)
+	te, ue := t.F[1].(*Term), u.F[1].(*Term)
+	if tw.IsConst() && uw.IsConst() && te.IsConst() && ue.IsConst() {
+		return nil, false
+	}
+	top := ts.Const(64, 1<<63)
+	in.must(ts.Eq(ts.BvAnd(tw, top), ts.Const(64, 0)), "time model: instant with monotonic reading (unsupported)")
+	in.must(ts.Eq(ts.BvAnd(uw, top), ts.Const(64, 0)), "time model: instant with monotonic reading (unsupported)")
+	in.stub("time.Time.Sub on symbolic wall-clock instants: (sec1-sec2)*1e9+(nsec1-nsec2), |sec1-sec2| < 2^33 assumed")
+	ds := ts.Sub(te, ue)
+	lim := ts.Const(64, 1<<33)
+	in.assume(ts.And(ts.Slt(ds, lim), ts.Slt(ts.BvNeg(lim), ds)), "time.Sub range")
+	nmask := ts.Const(64, (1<<30)-1)
+	tn, un := ts.BvAnd(tw, nmask), ts.BvAnd(uw, nmask)
+	if _, hi := in.ival(tw); hi <= nmask.Val {
+		tn = tw
+	}
+	if _, hi := in.ival(uw); hi <= nmask.Val {
+		un = uw
+	}
+	dn := ts.Sub(tn, un)
+	return ts.Add(in.mulConst(ds, 1000000000), dn), true
+}
+
+// mulConst: x*c; when x is known to lie in a small interval the product is an
+// ite-chain over its values (a 64-bit multiplication by 10^9 defeats the
+// bit-blasting solvers, see DESIGN.md)
+func (in *Interp) mulConst(x *Term, c uint64) *Term {
+	ts := in.ts
+	lo, hi := in.ival(x)
+	if hi >= lo && hi-lo <= 256 {
+		res := ts.Const(64, hi*c)
+		for v := hi; v > lo; v-- {
+			res = ts.Ite(ts.Eq(x, ts.Const(64, v-1)), ts.Const(64, (v-1)*c), res)
+		}
+		return res
+	}
+	return ts.Mul(x, ts.Const(64, c))
 }
 
 // ---------- prelude (harness) intrinsics ----------
